@@ -32,10 +32,13 @@ type X struct {
 	synth  map[ast.Expr]ast.Expr
 	loops  []ast.Stmt
 	// Prog enables the inlining of same-package helper predicates in Table.
-	Prog  *core.Program
-	bind  map[types.Object]ast.Expr // parameter -> argument, when this body is an inlined helper
-	expd  map[types.Object]ast.Expr // memo of expandable boolean locals (nil entry: not expandable)
-	depth int
+	Prog *core.Program
+	// LoopDecisions: the head test of a `for` statement is a loop decision (enter / done) and not a
+	// branch literal (set for predicates whose loops scan a list).
+	LoopDecisions bool
+	bind          map[types.Object]ast.Expr // parameter -> argument, when this body is an inlined helper
+	expd          map[types.Object]ast.Expr // memo of expandable boolean locals (nil entry: not expandable)
+	depth         int
 }
 
 // New indexes the switch statements and loops of g's body.
@@ -159,7 +162,21 @@ func (x *X) EdgeFacts(b *cfg.Block, succ int) []cfgq.Fact {
 	if c == nil {
 		return nil
 	}
-	return x.Facts(c, succ == 0)
+	out := x.Facts(c, succ == 0)
+	// facts implied by the outcome of same-package predicate helpers (cfgq), normalised
+	seen := map[ast.Expr]bool{}
+	for _, f := range out {
+		seen[f.Expr] = true
+	}
+	for _, f := range x.G.EdgeFacts(b, succ) {
+		for _, nf := range x.Facts(f.Expr, f.Val) {
+			if !seen[nf.Expr] {
+				seen[nf.Expr] = true
+				out = append(out, nf)
+			}
+		}
+	}
+	return out
 }
 
 // Establishes reports whether the edge implies a fact accepted by match.
@@ -347,6 +364,12 @@ func (x *X) Traces(from *cfg.Block, idx int, stop func(*cfg.Block) bool, max int
 		case 1:
 			walk(b.Succs[0], 0, evs, false)
 		case 2:
+			if fs, isFor := b.Stmt.(*ast.ForStmt); isFor && b.Kind == cfg.KindForLoop && x.LoopDecisions {
+				// `for i := 0; i < len(l); i++`: one more element / exhausted, like a range loop
+				walk(b.Succs[0], 0, append(append([]Ev(nil), evs...), Ev{Enter: fs}), false)
+				walk(b.Succs[1], 0, append(append([]Ev(nil), evs...), Ev{Done: fs}), false)
+				return
+			}
 			if cond != nil {
 				for si, val := range []bool{true, false} {
 					for _, alt := range x.shortCircuit(cond, val) {
@@ -643,7 +666,7 @@ func (x *X) inline(l Lit, cls Classifier) ([]Row, error) {
 		}
 	}
 	hx := New(hg)
-	hx.Prog, hx.bind, hx.depth = x.Prog, bind, x.depth-1
+	hx.Prog, hx.bind, hx.depth, hx.LoopDecisions = x.Prog, bind, x.depth-1, x.LoopDecisions
 	traces, err := hx.Traces(hx.G.CFG.Blocks[0], 0, nil, 200)
 	if err != nil {
 		return nil, err
